@@ -432,8 +432,12 @@ def check_compare_languages(ctx, rep, f):
     for (st, kind) in msgs:
         nid = cfg.n_of(st)
         atoms = fx.guard_atoms(nid)
-        nonempty = [a[1] for a in atoms if ((a[0] == 'empty' and a[3] is False) or (a[0] == 'truthy' and a[3] is True)) and a[1] in diffs]
-        empty = [a[1] for a in atoms if ((a[0] == 'empty' and a[3] is True) or (a[0] == 'truthy' and a[3] is False)) and a[1] in diffs]
+        # `if xs:` is a non-emptiness test only for a COLLECTION (sorted(...)); for an element picked by min(..) it would
+        # conflate the empty word with "no word"
+        def coll(name):
+            return name in diffs and diffs[name][4] == 'sorted'
+        nonempty = [a[1] for a in atoms if ((a[0] == 'empty' and a[3] is False and a[1] in diffs) or (a[0] == 'truthy' and a[3] is True and coll(a[1])))]
+        empty = [a[1] for a in atoms if ((a[0] == 'empty' and a[3] is True and a[1] in diffs) or (a[0] == 'truthy' and a[3] is False and coll(a[1])))]
         if not nonempty:
             rep.violates(RULE + '.K4', f, st, 'the message is not guarded by the non-emptiness of a set difference')
             continue
